@@ -14,6 +14,6 @@ echo "== demo with change"; (cd $D && PYTHONPATH=$D /venv/bin/python seed/demo.p
 echo "== pinned test-suite with change"; /venv/bin/python /verif/tools/baseline.py $D | head -5
 for ID in "$@"; do
   echo "== check $ID"
-  VERIF_REPO=$D /venv/bin/python /verif/run_check.py $ID --tier quick --no-evidence 2>&1 | grep -E "^(OK|VIOLATION|HARNESS|  clause)" | cut -c1-260 | head -5
+  VERIF_REPO=$D /venv/bin/python /verif/run_check.py $ID --tier quick --no-evidence 2>&1 | grep -E "^(OK|VIOLATION|HARNESS|  clause)" | cut -c1-260 | head -12
 done
 rm -rf $D
